@@ -57,6 +57,7 @@ def build_corpus(tier, rng):
     items.append(("samename", Item("E", [Variant("HTTPServer", "unit"), Variant("HttpServer", "unit"), Variant("Other", "unit")], metas=[EM("sall", "kebab-case")])))
     items.append(("samename", Item("E", [Variant("Crimson", "unit", [], [ser("Red")]), Variant("Red", "unit"), Variant("Blue", "tuple", [Field("u8")], [tos("Red")])])))
     items.append(("samename", Item("E", [Variant("A", "unit", [], [tos("x")]), Variant("B", "unit", [], [tos("x"), DISABLED]), Variant("C", "unit", [], [tos("x")])], metas=[EM("prefix", "p")])))
+    G.resolve_names(ID, [it for _, it in items])
     for fam, it in items:
         fieldless = all(v.kind == "unit" for v in it.variants)
         derives = ["EnumCount", "VariantNames", "EnumIter"] + (["VariantArray"] if fieldless else [])
